@@ -253,7 +253,8 @@ def sv_temporal(rng, reader):
         f = rng.choice(("", "", "5", "123", "250000")) if s is not None else ""
         zones = ["", "Z"]
         if datespec.ACCEPTS_OFFSET[reader]:
-            zones += ["+05", "-03:30", "+1"]
+            zones += ["+05", "-03:30", "+1", "-00:30", "+00:30", "-0:45", "-00:01",
+                      "-11:59", "+12:45"]
         t = datespec.render_time(rng.randint(0, 23), rng.randint(0, 59), s, f,
                                  rng.choice(zones))
         text = t if kind == "time" else datespec.render_date(d, dform) + "T" + t
